@@ -153,9 +153,10 @@ func genRounds(r *Rand, nRounds int, eedPct, envPct int, hooks bool) []rRound {
 		onlyInvisible := false
 		deco := func() {
 			if r.Pct(eedPct) {
-				st := 0
+				// status bits: FOLLOWS (0x1) and INFO (0x2) in all four combinations
+				st := r.Intn(2)
 				if r.Pct(40) || onlyInvisible {
-					st = 2
+					st |= 2
 				}
 				items = append(items, rItem{K: "eed", Status: st, N: next()})
 			}
@@ -846,8 +847,12 @@ func (c11) Run(plan interface{}, schedSeed uint64, replay []simrt.Choice, lenien
 			if d == "ENVCHANGE(leaked)" {
 				v.Violate("leak", "environment change delivered as package", "%s: the consumer received an environment change package", where)
 			}
-			if strings.HasPrefix(d, "EED ") && strings.HasSuffix(d, " s=2") || strings.HasSuffix(d, " s=3") && strings.HasPrefix(d, "EED ") {
-				v.Violate("leak", "informational message delivered as package", "%s: the consumer received %s", where, d)
+			if strings.HasPrefix(d, "EED ") {
+				var n, st int
+				fmt.Sscanf(d, "EED n=%d s=%d", &n, &st)
+				if st&2 != 0 {
+					v.Violate("leak", "informational message delivered as package", "%s: the consumer received %s", where, d)
+				}
 			}
 		}
 		// position of every visible item in the consumer's view (manual mode sees EEDs, callbacks do not)
